@@ -63,6 +63,18 @@ def judge_stream(text, frags, auto, sourcepath=None, eff_source_check=None):
     return bad
 
 
+def A_walk(n):
+    from calmjs.parse import asttypes as A
+    yield n
+    for k, v in vars(n).items():
+        if k.startswith('_') and k != '_children_list':
+            continue
+        for x in (v if isinstance(v, list) else [v]):
+            if isinstance(x, A.Node):
+                for y in A_walk(x):
+                    yield y
+
+
 def configs():
     from calmjs.parse.unparsers import es5
     from calmjs.parse import rules
@@ -148,6 +160,43 @@ def run(ctx):
             ctx.violation('multi-file stream: ' + what, dict(texts=[g[0] for g in group], config=name, fragment=list(f)))
             return
     ctx.bump('multi-file streams', nmulti)
+    # nested sources: a subtree that comes from another file inside a tree of the first file; fragments emitted by the
+    # outer file AFTER the inner subtree must name the outer file again (sourcepath stack)
+    from calmjs.parse import asttypes as A
+    nnest = 0
+    pool = [t for t in trees if not t[1]]
+    for _ in range(ctx.n(40, 400)):
+        (otext, _, otree, oauto), (itext, _, itree, iauto) = rng.sample(pool, 2)
+        outer, oauto2 = C11.parse_recording_asi(otext, False)
+        inner, iauto2 = C11.parse_recording_asi(itext, False)
+        # graft: replace one element of some statement list of the outer tree by the inner program's block
+        hosts = [n for n in A_walk(outer) if isinstance(getattr(n, '_children_list', None), list) and n._children_list]
+        if not hosts or not inner._children_list:
+            continue
+        host = rng.choice(hosts)
+        k = rng.randrange(len(host._children_list))
+        blk = inner._children_list[0]
+        blk.sourcepath = 'inner.js'
+        outer.sourcepath = 'outer.js'
+        host._children_list[k] = blk
+        name, make = rng.choice([c for c in cfgs if 'obfuscate' not in c[0]])
+        try:
+            frags = list(make()(outer))
+        except Exception:
+            continue
+        nnest += 1
+        ctx.case(('nested', name, otext, itext), nontrivial=True)
+        texts_by_src = {'outer.js': (otext, oauto2), 'inner.js': (itext, iauto2)}
+        for f in frags:
+            if not f.lineno or not f.colno or f.source not in texts_by_src:
+                continue
+            t, au = texts_by_src[f.source]
+            bad = judge_stream(t, [f], au)
+            if bad:
+                ctx.violation('nested sources (%s): fragment %r names %s but %s' % (name, f.text, f.source, bad[0]),
+                              dict(outer=otext, inner=itext, config=name, host=type(host).__name__, index=k, fragment=list(f)))
+                return
+    ctx.bump('nested-source streams', nnest)
     ctx.sample(dict(text=texts[0][:120], configs=[c[0] for c in cfgs][:5]))
     if getattr(ctx, 'drivers_ok', True):
         ut.unparse_tie(ctx, texts[:ctx.n(40, 400)])
